@@ -89,7 +89,11 @@ func c10Extent(c *Ctx) {
 	var cell *ssa.Alloc
 	eachInstr(f, func(in ssa.Instruction) {
 		if st, ok := in.(*ssa.Store); ok {
-			if u, ok := st.Val.(*ssa.UnOp); ok && u.Op.String() == "<-" {
+			val := st.Val
+			if e, isE := val.(*ssa.Extract); isE && e.Index == 0 { // `for x := range ch`: the receive is <-ch,ok
+				val = e.Tuple
+			}
+			if u, ok := val.(*ssa.UnOp); ok && u.Op.String() == "<-" {
 				if al, ok := st.Addr.(*ssa.Alloc); ok {
 					cell = al
 				}
